@@ -81,6 +81,32 @@ TREES = ['var a = 1, b = [a, 2];', 'function f(x, y) { var z = x + y; return fun
          'function g(h) { try { h(); } catch (err) { log(err); } }', 'function k(m) { try { m(); } catch (e2) { notify(err, e2); } }']
 
 
+def deep_state(Node, root):
+    """every attribute of every node reachable from root (private ones and token maps included), as plain data"""
+    seen = {}
+    order = []
+
+    def val(v):
+        if isinstance(v, Node):
+            visit(v)
+            return ('node', seen[id(v)])
+        if isinstance(v, (list, tuple)):
+            return (type(v).__name__,) + tuple(val(x) for x in v)
+        if isinstance(v, dict):
+            return ('dict',) + tuple(sorted((repr(k), val(x)) for k, x in v.items()))
+        return ('value', repr(v))
+
+    def visit(n):
+        if id(n) in seen:
+            return
+        seen[id(n)] = len(seen)
+        slot = [type(n).__name__, None]
+        order.append(slot)
+        slot[1] = tuple(sorted((k, val(v)) for k, v in vars(n).items()))
+    visit(root)
+    return tuple((a, b) for a, b in order)
+
+
 def bounded(run, tier):
     es5 = importlib.import_module('calmjs.parse.parsers.es5')
     unparsers = importlib.import_module('calmjs.parse.unparsers.es5')
@@ -99,6 +125,8 @@ def bounded(run, tier):
     }
     trees = [es5.Parser().parse(s) for s in TREES]
     reprs = [rw.walk(t, pos=True) for t in trees]
+    NodeCls = importlib.import_module('calmjs.parse.asttypes').Node
+    states = [deep_state(NodeCls, t) for t in trees]
     ref = dict(((p, i), [tuple(f) for f in mk[p]()(t)]) for p in mk for i, t in enumerate(trees))
     n = 0
     nfail = [0]
@@ -139,6 +167,10 @@ def bounded(run, tier):
     for i, t in enumerate(trees):
         if rw.walk(t, pos=True) != reprs[i]:
             fail('tree %d' % i, 'unparsing modified the tree')
+        elif deep_state(NodeCls, t) != states[i]:
+            after = deep_state(NodeCls, t)
+            diff = [(a[0], sorted(set(b[1]) ^ set(a[1]))[:2]) for a, b in zip(states[i], after) if a != b][:2] if len(after) == len(states[i]) else 'different node set'
+            fail('tree %d (hidden state)' % i, 'unparsing modified attributes of the tree that its repr does not show: %r' % (diff,))
     # shortcuts
     for src in TREES:
         n += 1
